@@ -282,28 +282,30 @@ fn q_phrase(params: &InvertedIndexParams, raw: Vec<String>) -> Q {
     Q::Phrase { raw, terms }
 }
 
-fn gen_leaf(rng: &mut Rng, p: &InvertedIndexParams) -> Q {
+fn gen_leaf(rng: &mut Rng, p: &InvertedIndexParams, multi_part: bool) -> Q {
     let n23 = rng.range(2, 3) as usize;
     let n13 = rng.range(1, 3) as usize;
     match rng.below(10) {
         0 | 1 => q_match(p, false, gen_terms(rng, 1, true)),
         2 | 3 => q_match(p, false, gen_terms(rng, n23, true)),
-        4 | 5 | 6 => q_match(p, true, gen_terms(rng, n23, true)),
+        // (the vocabulary test of an AND query is per index partition, and partition boundaries are not observable:
+        //  once the index may have several partitions AND queries use only words that occur everywhere, or nowhere)
+        4 | 5 | 6 => q_match(p, true, gen_terms(rng, n23, true).into_iter().map(|t| if multi_part && t == VOCAB[6] { VOCAB[0].to_string() } else { t }).collect()),
         _ => q_phrase(p, gen_terms(rng, n13, true)),
     }
 }
 
-fn gen_query(rng: &mut Rng, p: &InvertedIndexParams) -> Q {
+fn gen_query(rng: &mut Rng, p: &InvertedIndexParams, multi_part: bool) -> Q {
     if rng.chance(1, 5) {
-        let must: Vec<Q> = (0..rng.below(3)).map(|_| gen_leaf(rng, p)).collect();
-        let mut should: Vec<Q> = (0..rng.below(3)).map(|_| gen_leaf(rng, p)).collect();
+        let must: Vec<Q> = (0..rng.below(3)).map(|_| gen_leaf(rng, p, multi_part)).collect();
+        let mut should: Vec<Q> = (0..rng.below(3)).map(|_| gen_leaf(rng, p, multi_part)).collect();
         if must.is_empty() && should.is_empty() {
-            should.push(gen_leaf(rng, p));
+            should.push(gen_leaf(rng, p, multi_part));
         }
-        let must_not: Vec<Q> = (0..rng.below(2)).map(|_| gen_leaf(rng, p)).collect();
+        let must_not: Vec<Q> = (0..rng.below(2)).map(|_| gen_leaf(rng, p, multi_part)).collect();
         Q::Bool { must, should, must_not }
     } else {
-        gen_leaf(rng, p)
+        gen_leaf(rng, p, multi_part)
     }
 }
 
@@ -355,6 +357,20 @@ async fn one_query(t: &Tbl, q: &Q, ids: &mut TokIds, sink: &mut Sink, fts: &mut 
             if !matches!(q, Q::Bool { .. }) && !(ifr.is_none()) && !got.windows(2).all(|w| w[0].1 >= w[1].1) {
                 fails.push("scores are not sorted descending".into());
             }
+            // BM25 shape (indexed rows, one query token): more occurrences in a document that is not longer never scores lower
+            if let (Q::Match { and: false, terms, .. }, false) = (q, has_fresh) {
+                if terms.len() == 1 {
+                    let fd: Vec<(usize, usize, f32, i32)> = got.iter().filter_map(|g| t.docs.get(g.0 as usize).and_then(|d| d.toks.as_ref()).map(|x| (x.iter().filter(|w| **w == terms[0]).count(), x.len(), g.1, g.0))).collect();
+                    'outer: for a in &fd {
+                        for b in &fd {
+                            if a.0 >= b.0 && a.1 <= b.1 && (a.0 > b.0 || a.1 < b.1) && a.2 < b.2 - 1e-6 {
+                                fails.push(format!("BM25 order: doc {} (tf {}, len {}) scores {} below doc {} (tf {}, len {}) scoring {}", a.3, a.0, a.1, a.2, b.3, b.0, b.1, b.2));
+                                break 'outer;
+                            }
+                        }
+                    }
+                }
+            }
         }
     }
     if fails.is_empty() {
@@ -388,7 +404,16 @@ async fn table_history(ti: usize, dir: &std::path::Path, rng: &mut Rng, sink: &m
     let params = InvertedIndexParams::default().with_position(true).stem(false).remove_stop_words(false);
     let uri = dir.join(format!("t{ti}")).to_string_lossy().to_string();
     let n0 = if ti == 0 { 400 } else { rng.range(30, 200) as usize };
-    let docs = mk_docs(&params, &[], rng, n0);
+    let mut docs = mk_docs(&params, &[], rng, n0);
+    if ti == 0 {
+        // corpus entries: a later phrase token occurring early (check_positions overshoot), repeated-term phrases
+        let mut tk = params.build().unwrap();
+        for text in ["omega omega omega zeta kappa omega", "quux blorp omega zeta kappa omega", "omega quux omega", "kappa quux quux", "blorp kappa quux quux"] {
+            let id = docs.len() as i32;
+            docs.push(Doc { id, text: Some(text.to_string()), toks: Some(collect_doc_tokens(text, &mut tk, None).into_iter().collect()), deleted: false, frag: None });
+        }
+    }
+    let n0 = docs.len();
     let b = mk_batch(&schema, &docs);
     let ds = Dataset::write(RecordBatchIterator::new(vec![Ok(b)], schema.clone()), &uri, Some(WriteParams { max_rows_per_file: *rng.pick(&[150usize, 1000, 60]), ..Default::default() })).await.map_err(es)?;
     let mut t = Tbl { ds, schema: schema.clone(), docs, hist: vec![], name: format!("t{ti}"), params: params.clone() };
@@ -451,10 +476,14 @@ async fn table_history(ti: usize, dir: &std::path::Path, rng: &mut Rng, sink: &m
         }
         t.refresh().await?;
         for q in &fixed {
+            let multi = t.hist.iter().any(|h| h.starts_with("optimize"));
+            if multi && matches!(q, Q::Match { and: true, raw, .. } if raw.iter().any(|r| r == VOCAB[6])) {
+                continue;
+            }
             one_query(&t, q, &mut ids, sink, fts, step).await?;
         }
         for _ in 0..nq {
-            let q = gen_query(rng, &params);
+            let q = gen_query(rng, &params, t.hist.iter().any(|h| h.starts_with("optimize")));
             one_query(&t, &q, &mut ids, sink, fts, step).await?;
         }
     }
